@@ -3,6 +3,7 @@ import OmplModel.Proofs.PlannerProtoControl
 import OmplModel.Proofs.PlannerProtoPrm
 import OmplModel.Proofs.PlannerProtoGoal
 import OmplModel.Proofs.PlannerProtoForget
+import OmplModel.Proofs.PlannerProtoConnect
 /-!
 # C03 — interrupting, resuming or clearing a planner never corrupts its result
 
@@ -410,6 +411,60 @@ example : (bestOf (reach coreN Pn [.setProblemDefinition 1 [(7, true)], .solve 1
 /-- the observations of a history after `clear()` on a planner that had searched: the same as on the fresh one (both sides
 evaluated) -/
 example : (trace coreN Pn (clear coreN (reach coreN Pn histN)) [.getPlannerData, .solve 0 []]).length = 2 := by decide
+
+/-! ## Round 10, second lap: a bidirectional core — geometric::RRTConnect (`Model/PlannerProtoConnect.lean`) -/
+
+/-- the two-tree core of RRTConnect (goal roots handed out by `nextGoal`, `growTree` on one tree, the connect loop on the
+other, `connectionPoint_`, the alternating `startTree_`) satisfies the laws of the generic theorems: every motion either
+tree gains is allocated exactly once, nothing is freed inside the loop, both trees only grow, a reported index exists and
+its path (start-tree walk, or start-tree walk ++ reversed goal-tree walk for the connection) is non-empty -/
+theorem rrtConnect_core_lawful : LawfulCore (rrtConnectCore : CoreSpec σ δ (BDraw σ δ) (BiTree σ)) := rrtConnect_lawful
+
+/-- **RRTConnect: leak balance, status, bounded evaluations, forgetting** — the generic theorems instantiated: for every
+history and every `k` the allocation log replays without double free / id re-use and the live states are those owned by
+the motions of BOTH trees plus those handed to paths (after `clear()`: only the latter); every `solve` evaluates the
+termination condition at most `k + 1` times; a status EXACT implies `hasExactSolution`; after `clear()` every later
+history is observed exactly as on a fresh planner. -/
+theorem rrtConnect_instances (P : Params σ δ) (ops : List (Op σ (BDraw σ δ))) (k : Nat) (ds : List (BDraw σ δ)) :
+    (∃ L, replay ([], 0) (reach rrtConnectCore P ops).log = some (L, (reach rrtConnectCore P ops).next) ∧
+      L.Perm ((rrtConnectCore (σ := σ) (δ := δ)).owned (reach rrtConnectCore P ops).core ++ (reach rrtConnectCore P ops).handed)) ∧
+    (∃ L, replay ([], 0) (clear rrtConnectCore (reach rrtConnectCore P ops)).log = some (L, (reach rrtConnectCore P ops).next) ∧
+      L.Perm (reach rrtConnectCore P ops).handed) ∧
+    (solve rrtConnectCore P (reach rrtConnectCore P ops) k ds).evals ≤ k + 1 ∧
+    ((solve rrtConnectCore P (reach rrtConnectCore P ops) k ds).status = .exact →
+      ∃ pd', (solve rrtConnectCore P (reach rrtConnectCore P ops) k ds).m.pdef = some pd' ∧ pd'.hasExactSolution = true) ∧
+    (∀ later : List (Op σ (BDraw σ δ)),
+      trace rrtConnectCore P (clear rrtConnectCore (reach rrtConnectCore P ops)) later =
+        trace rrtConnectCore P (freshWith rrtConnectCore (reach rrtConnectCore P ops).pdef (reach rrtConnectCore P ops).next) later) :=
+  ⟨alloc_balanced _ rrtConnect_lawful P ops, alloc_balanced_after_clear _ rrtConnect_lawful P ops,
+   (solve_evaluations_bounded _ P _ k ds).1, (solve_status_truthful _ P _ k ds).1,
+   fun later => (clear_forgets_every_history _ P _ later).1⟩
+
+/-- **RRTConnect: a resumed `solve()` continues the preserved search** — any planner state, any `k`, any oracle answers:
+both trees the call found are prefixes of the trees it returns with (every old motion at its index with its state,
+parent and allocation id). -/
+theorem resume_continues_search_bidirectional (P : Params σ δ) (m : M σ δ (BiTree σ)) (k : Nat) (ds : List (BDraw σ δ)) :
+    m.core.ts.toList <+: (solve rrtConnectCore P m k ds).m.core.ts.toList ∧
+      m.core.tg.toList <+: (solve rrtConnectCore P m k ds).m.core.tg.toList := by
+  show m.core.le (solve rcc P m k ds).m.core
+  rcases solve_shape rcc rrtConnect_lawful P m k ds with ⟨_, hm, _⟩ | ⟨pd, hpd, hc | ⟨r, hr, hc, _⟩⟩
+  · rw [hm]; exact BiTree.le_refl _
+  · rw [hc.1]; exact connect_consumeStarts_le _ _ _
+  · rw [hc, hr]
+    exact BiTree.le_trans (connect_consumeStarts_le (δ := δ) (pd.starts.drop m.pis.added) m.core m.next) (connect_loop_le _ _ _ _ _ _)
+
+/-! non-vacuity: start 7, goal 20; iteration 1 (start tree's turn) samples the goal root, extends the start tree to 9, the
+connect call on the goal tree is TRAPPED; iteration 2 (goal tree's turn) extends the goal tree to 12 and the start tree
+REACHES 12: the trees are connected. -/
+def bcoreN : CoreSpec Nat Nat (BDraw Nat Nat) (BiTree Nat) := rrtConnectCore
+def bdraw1 : BDraw Nat Nat := ⟨some 20, .added 0 9 false, [.trapped], true, 11⟩
+def bdraw2 : BDraw Nat Nat := ⟨none, .added 0 12 false, [.added 1 12 true], true, 0⟩
+example : (solve bcoreN Pn (reach bcoreN Pn [.setProblemDefinition 1 [(7, true)]]) 1 [bdraw1]).status = .approximate := by decide
+example : (solve bcoreN Pn (reach bcoreN Pn [.setProblemDefinition 1 [(7, true)]]) 9 [bdraw1, bdraw2]).status = .exact ∧
+    (solve bcoreN Pn (reach bcoreN Pn [.setProblemDefinition 1 [(7, true)]]) 9 [bdraw1, bdraw2]).evals = 2 ∧
+    (solve bcoreN Pn (reach bcoreN Pn [.setProblemDefinition 1 [(7, true)]]) 9 [bdraw1, bdraw2]).m.core.conn = some (1, 1) := by decide
+/-- allocation events of the first iteration: goal root, new start-tree motion -/
+example : (bcoreN.iterate (reach bcoreN Pn [.setProblemDefinition 1 [(7, true)], .solve 0 []]).core 10 bdraw1).evs = [.alloc 10, .alloc 11] := by decide
 
 /-! ## Third core: PRM's query bookkeeping (`Model/PlannerProtoPrm.lean`) -/
 
